@@ -344,7 +344,7 @@ func buildCorpus(r *mc.Run) *corpus {
 	repProto, _ := proto.Marshal(snp.Report)
 	raw := sgtest.TestRawReport([64]byte{1})
 	table := abi.CertsFromProto(&spb.CertificateChain{VcekCert: att.Vcek(), Extras: map[string][]byte{sev.GCEFwCertGUID: eb}}).Marshal()
-	rawCerts := append(append([]byte(nil), raw[:]...), table...)
+	rawCerts := append(append([]byte(nil), raw[:abi.ReportSize]...), table...)
 	quote := att.TdxQuote(nil)
 	qp, _ := tabi.QuoteToProto(quote)
 	var quoteProto, tpmTdx []byte
@@ -352,9 +352,9 @@ func buildCorpus(r *mc.Run) *corpus {
 		quoteProto, _ = proto.Marshal(m)
 	}
 	tpmTdx, _ = proto.Marshal(&tpmpb.Attestation{TeeAttestation: &tpmpb.Attestation_TdxAttestation{TdxAttestation: mustQuoteV4(quote)}})
-	atts := map[string][]byte{"tpm-snp": tpmSnp, "snp-attestation-proto": snpProto, "report-proto": repProto, "raw-report": raw[:], "raw-report+certs": rawCerts,
+	atts := map[string][]byte{"tpm-snp": tpmSnp, "snp-attestation-proto": snpProto, "report-proto": repProto, "raw-report": raw[:abi.ReportSize], "raw-report-response-4000": raw[:], "raw-report+certs": rawCerts,
 		"cert-table": table, "tdx-quote-proto": quoteProto, "raw-tdx-quote": quote, "tpm-tdx": tpmTdx,
-		"hex-raw-report": []byte(hex.EncodeToString(raw[:])), "base64-raw-quote": []byte(base64.StdEncoding.EncodeToString(quote))}
+		"hex-raw-report": []byte(hex.EncodeToString(raw[:abi.ReportSize])), "base64-raw-quote": []byte(base64.StdEncoding.EncodeToString(quote))}
 	for _, ep := range []string{"extract.Attestation", "validate(attestation)", "extract.Endorsement(quote)"} {
 		for name, b := range atts {
 			add(ep, name, b)
